@@ -80,7 +80,14 @@ func vHasName(l []string, n string) bool {
 
 // VerifC12: two consecutive cleaning runs over a listing of up to 4 files with arbitrary
 // snapshot times, instants, intervals, a merge-commit notification and delete failures.
-func VerifC12() {
+func VerifC12() { verifC12(false) }
+
+// VerifC12SameSecond: the same, with snapshot times base+offset where the bases are concrete
+// seconds and two snapshots of the listing fall into the same wall-clock second (names carry
+// nanoseconds: sub-second publication intervals are legal).
+func VerifC12SameSecond() { verifC12(true) }
+
+func verifC12(sameSecond bool) {
 	lg := logrus.New()
 	lg.SetLevel(logrus.PanicLevel)
 	b := &vBucket{}
@@ -95,6 +102,12 @@ func VerifC12() {
 	mk := func(i int, inst string) *vFile {
 		ts := zz.NondetI64("ts" + string(rune('0'+i)))
 		zz.Assume(zz.And(ts > 0, ts < 1<<61))
+		if sameSecond {
+			bases := []int64{1600000000, 1600000100, 1600000100, 1600000200}
+			off := ts
+			zz.Assume(off < 1000000000)
+			ts = bases[i]*1000000000 + off
+		}
 		for _, f := range files {
 			if f.snap && f.inst == inst {
 				zz.Assume(f.ts != ts) // snapshot times of one instance are pairwise distinct (C06)
